@@ -1,6 +1,6 @@
 # bin/check driver: collect the obligations of one property, run them in a fork pool,
 # replay counterexamples natively, apply the known-findings file, write the evidence.
-import os, sys, json, time, hashlib, subprocess, multiprocessing, argparse, re, traceback
+import os, sys, json, time, hashlib, subprocess, multiprocessing, argparse, re, traceback, fnmatch
 
 VERIF = os.path.dirname(os.path.dirname(os.path.abspath(__file__)))
 REPO = os.environ.get('PYVC_REPO', '/repo')
@@ -116,7 +116,7 @@ def main(argv=None):
             path = write_replay(prop, r)
             rr = native_replay(path, search=(200 if (r.get('opaque') or r['cls'] == 'I') else 0))
             r['replay'] = rr
-            fnd = [f for f in findings if r['id'] == f['obligation'] or r['id'].startswith(f['obligation'] + '/')]
+            fnd = [f for f in findings if r['id'] == f['obligation'] or r['id'].startswith(f['obligation'] + '/') or fnmatch.fnmatchcase(r['id'], f['obligation'])]
             if fnd:
                 known.append((r, fnd[0])); continue
             if rr.get('outcome') == 'fails':
